@@ -326,10 +326,14 @@ def check_suffix_slices(ctx, num=6):
     for meth, state in (("kill", "FAILED"), ("suspend_container", "SUSPENDING"), ("suspend_container_tick", "PENDING")):
         f = P.fn(CT, f"Container.{meth}")
         ctx.touch(f)
-        tcs = transition_calls(f)
-        ctx.count_min(f"transition calls in Container.{meth}", len(tcs), 1)
-        for c, recv, s in tcs:
-            lp = enclosing_for(c, f.node)
+        tcs = transition_calls_deep(P, f)
+        if not any(s == state for (_, _, _, s, _) in tcs):
+            ctx.ob(8, "K5", f"Container.{meth} moves the unfinished operators to {state}", False, f, f.node, construct=f"transition({state})",
+                   detail=f"no transition to {state} found in Container.{meth} or the same-class helpers it calls; transitions found: "
+                          f"{[(fn.qual, s) for fn, _, _, s, _ in tcs]}")
+        for fn_, c, recv, s, chain in tcs:
+            ctx.touch(fn_)
+            lp = enclosing_for(c, fn_.node)
             ok = False
             detail = "transition call is not inside a for loop over the operator suffix"
             if lp is not None and isinstance(lp.target, ast.Name) and norm.is_name(recv, lp.target.id):
@@ -341,8 +345,10 @@ def check_suffix_slices(ctx, num=6):
                     detail = f"iterates {norm.U(it)}"
                 else:
                     detail = f"iterates {norm.U(it)}; required: self.operators[self._current_op_idx:]"
-            ctx.ob(num, "K6", f"Container.{meth} touches exactly the unfinished suffix operators[_current_op_idx:]", ok, f, c, detail=detail)
-            ctx.ob(8, "K5", f"Container.{meth} moves operators to {state}", s == state, f, c, detail=f"target state in code: {s}; machine: {state}")
+            via = f" (via {' -> '.join(norm.U(x) for x in chain)})" if chain else ""
+            ctx.ob(num, "K6", f"Container.{meth} touches exactly the unfinished suffix operators[_current_op_idx:]", ok, fn_, c, detail=detail + via)
+            ctx.ob(8, "K5", f"Container.{meth} moves operators to {state} and to no other state", s == state, fn_, c,
+                   detail=f"target state in code: {s}; machine: {state}" + via)
 
 
 def check_op_idx(ctx, num=7):
